@@ -84,6 +84,8 @@ type caseSpec struct {
 	impostor bool   // stdlib SCRAM server that accepts any proof and forges the server signature
 	wrongCreds bool // the credential table says the pair is wrong (after normalisation)
 	addr     string // address to dial ("" = broker1:9092); a non-numeric port makes splitHostPortNumber fail
+	tlsFail  bool   // the peer answers the ClientHello with something that is not TLS: the dial must fail and close its socket
+	tls      bool   // Dialer.TLS / Transport.TLS set: the fake broker sits behind TLS and notes what reaches its socket first
 }
 
 func (c caseSpec) address() string {
@@ -463,7 +465,11 @@ func runCase(c caseSpec) (res caseResult, skip string) {
 		res.logs = append(res.logs, lg)
 		cur = lg
 		mu.Unlock()
-		go serve(sv, c, lg)
+		if c.tls {
+			go serveTLS(sv, c, lg)
+		} else {
+			go serve(sv, c, lg)
+		}
 		return cl, nil
 	}
 	var mech sasl.Mechanism
@@ -486,6 +492,9 @@ func runCase(c caseSpec) (res caseResult, skip string) {
 
 	if c.path == "dialer" {
 		d := &kafka.Dialer{DialFunc: dial, SASLMechanism: mech, ClientID: "c18"}
+		if c.tls {
+			d.TLS = clientTLS()
+		}
 		var conn *kafka.Conn
 		var err error
 		func() {
@@ -518,6 +527,9 @@ func runCase(c caseSpec) (res caseResult, skip string) {
 	}
 
 	tr := &kafka.Transport{Dial: dial, SASL: mech, MetadataTTL: 24 * time.Hour, ClientID: "c18"}
+	if c.tls {
+		tr.TLS = clientTLS()
+	}
 	addr := kafka.TCP(c.address())
 	_, err := tr.RoundTrip(ctx, addr, &findcoordinator.Request{Key: "g"})
 	res.final = errClass(err)
@@ -565,6 +577,12 @@ func emitCase(c caseSpec, res caseResult) {
 			cl = 1
 		}
 		path := c.path
+		if c.tls {
+			path += "+tls"
+		}
+		if c.tlsFail {
+			path += "+nohs"
+		}
 		if c.addr != "" {
 			path += "!addr"
 		}
@@ -572,6 +590,9 @@ func emitCase(c caseSpec, res caseResult) {
 		expect := "any"
 		if c.failAt == "" && c.mechFail < 0 && c.addr == "" && c.user == c.srvUser && c.pass == c.srvPass && !(c.hs != nil && c.hs[1] < 0 && c.path == "dialer") && !c.wrongCreds {
 			expect = "ok"
+		}
+		if c.tlsFail {
+			expect = "err" // no TLS on the other side: the dial must fail
 		}
 		if c.impostor && c.failAt == "" && c.mechFail < 0 && c.addr == "" {
 			// mutual authentication: a forged server signature must make the dial fail
@@ -650,6 +671,23 @@ func main() {
 		for _, path := range []string{"dialer", "transport"} {
 			cases = append(cases, caseSpec{path: path, hs: hsChoices[0], au: hsChoices[0], mech: "plain", user: "u", pass: "p", srvUser: "u", srvPass: "p", mechFail: -1, addr: a})
 		}
+	}
+	// behind TLS (Dialer.TLS / Transport.TLS): the broker notes what reaches its raw socket first
+	for _, path := range []string{"dialer", "transport"} {
+		for _, hs := range hsChoices {
+			for _, m := range []string{"plain", "scram256", "steps"} {
+				cases = append(cases, caseSpec{path: path, hs: hs, au: hsChoices[0], mech: m, user: "alice", pass: "s3cret", srvUser: "alice", srvPass: "s3cret",
+					steps: 2, mechFail: -1, refSrv: "xdg", tls: true})
+			}
+			cases = append(cases,
+				caseSpec{path: path, hs: hs, au: hsChoices[0], mech: "plain", user: "alice", pass: "wrong", srvUser: "alice", srvPass: "s3cret", mechFail: -1, badCreds: "code", wrongCreds: true, tls: true},
+				caseSpec{path: path, hs: hs, au: hsChoices[0], mech: "plain", user: "bob", pass: "pw", srvUser: "bob", srvPass: "pw", mechFail: -1, failAt: "handshake", failKind: "code", tls: true},
+				caseSpec{path: path, hs: hs, au: hsChoices[0], mech: "steps", steps: 3, mechFail: 0, tls: true})
+		}
+		cases = append(cases, caseSpec{path: path, hs: hsChoices[0], au: hsChoices[0], mech: "plain", user: "u", pass: "p", srvUser: "u", srvPass: "p", mechFail: -1, tls: true, tlsFail: true},
+			caseSpec{path: path, hs: hsChoices[0], au: hsChoices[0], mech: "none", mechFail: -1, tls: true, tlsFail: true})
+		cases = append(cases, caseSpec{path: path, hs: hsChoices[0], au: hsChoices[0], mech: "none", mechFail: -1, tls: true},
+			caseSpec{path: path, hs: hsChoices[0], au: hsChoices[0], mech: "plain", user: "u", pass: "p", srvUser: "u", srvPass: "p", mechFail: -1, addr: "broker1:kafka", tls: true})
 	}
 	_ = thorough
 	leaks := 0
